@@ -852,6 +852,52 @@ def _split(repo, col):
                   "all_last_inds == branch[0]", f"parent lookup {detail}", node=st_par[0][1].node)
     col.check(bool(st_root), R, fi, "a branch without such a predecessor is a root (-1)", "parent -1", "no branch is ever marked as root (-1)",
               node=fi.node)
+    # a branch is never its own parent: the match is compared with the branch's own position (the single-point soma [1]
+    # starts and ends at the same traced point and matches itself)
+    if st_par:
+        v, s_ = st_par[0]
+        is_match = lambda t: T.find(t, lambda x: x.op in ("call", "mcall") and x.name == "where") is not None
+        is_own = lambda t: T.find(t, is_match) is None and (
+            (t.op == "item" and t.name == 0 and t.args[0].op == "elem" and t.args[0].args[0].op == "call" and t.args[0].args[0].name == "enumerate")
+            or (t.op == "elem" and t.args[0].op == "call" and t.args[0].name == "range"))
+        found = []
+
+        def holds(t, neg):
+            """comparisons that necessarily hold under the guard t (negated if neg): And / not-Or are conjunctions"""
+            if t.op == "not" or (t.op == "unary" and t.name == "Not"):
+                return holds(t.args[0], not neg)
+            if t.op == "bool":
+                if (t.name == "And") != neg:
+                    return [h for a in t.args for h in holds(a, neg)]
+                return []
+            if t.op == "cmp" and len(t.args) == 2:
+                return [(t, neg)]
+            return []
+
+        for g in s_.guards:
+            if g.op == "loop":
+                continue
+            for q, neg in holds(g, False):
+                a, b = q.args
+                if (is_match(a) and is_own(b)) or (is_match(b) and is_own(a)):
+                    op = q.name
+                    if neg:
+                        op = {"==": "!=", "!=": "==", "<": ">=", "<=": ">", ">": "<=", ">=": "<"}.get(op, op)
+                    if is_own(a):
+                        op = {"<": ">", ">": "<", "<=": ">=", ">=": "<="}.get(op, op)
+                    found.append(op)
+        earlier_only = T.find(v, lambda x: x.op == "slice" and T.find(x, is_own) is not None) is not None
+        if found:
+            col.check(all(o in ("!=", "<") for o in found), R, fi, "a branch is never its own parent (the matching branch is not the branch itself)",
+                      f"match {found[0]} own position",
+                      f"the parent is accepted when `match {found[0]} own position`: the single-point soma [1] starts and ends at the same traced point, "
+                      f"matches itself and becomes its own parent, so the cell has no root", node=s_.node)
+        else:
+            col.add(R, fi, "a branch is never its own parent (the matching branch is not the branch itself)",
+                    "DISCHARGED" if earlier_only else "VIOLATED",
+                    "only earlier branches are searched" if earlier_only else
+                    "the parent match is never compared with the branch's own position: the single-point soma [1] matches itself and becomes its own parent",
+                    node=s_.node)
     # ---- (4) sorting: sections and their types are permuted with the same stable order
     fi = repo.func(CU, "_split_into_branches_and_sort")
     ex = idx.expander(repo, fi)
